@@ -155,9 +155,10 @@ Proof.
     destruct C as [[e' [He [Er Ee]]]|[Hr1 [Hr2 Ee]]]; [subst r; reflexivity|].
     (* refused by the reliability layer: only Duplicate *)
     assert (Hres : r = Err ERR_DUPLICATE).
-    { revert H. unfold session_post_recv.
+    { revert H. unfold session_post_recv, session_post_recv_raw.
+      destruct (effective_fields s m) as [_ [_ [_ [Ec _]]]]. rewrite Ec.
       destruct (post_recv (s_win s) (m_ctr m) (s_enc s) false) as [w' fr]. cbn [snd] in Hf. subst fr. cbn [negb].
-      rewrite Hfe. destruct (exch_post_recv e m t) as [e2 r2] eqn:He2.
+      rewrite find_exch_effective, Hfe. destruct (exch_post_recv e (effective s m) t) as [e2 r2] eqn:He2.
       destruct (exch_post_recv_res _ _ _ _ _ He2) as [-> | ->]; intros H; inversion H; subst; [congruence|reflexivity]. }
     subst r. reflexivity.
   - destruct C as [Hnone C].
